@@ -3,8 +3,13 @@
 Workload: *all* hierarchies of N classes with <= 3 ordered bases chosen among earlier classes
 (exhaustive), textual cycles, and the same hierarchies spread over several modules with bases
 reached through from-imports, aliased imports and ``mod.Class`` attribute access.
+Loading sessions: the hierarchy is spread over 2-3 *top-level* packages / modules that enter one modules
+collection step by step (every load order, one or several loaders sharing the collections, default or no
+extensions, ``visit`` without any loader), with mro()/inherited_members/all_members/resolved_bases/``cls[name]``
+read at random places between the steps, directly or through an alias of the class.
 Oracle: CPython's ``type()`` builds the very same hierarchy; ``__mro__`` and the first class
-in it defining a name are the expected order / definer.  M-CON contract on ``c3linear_merge``.
+in it defining a name are the expected order / definer.  For sessions CPython additionally imports the
+generated files and must agree with ``type()``.  M-CON contract on ``c3linear_merge``.
 """
 from __future__ import annotations
 
@@ -20,20 +25,32 @@ ANCHORS = ["c3linear.py"]
 RULE = ("all hierarchies of N classes (N<=5 quick, N<=6 thorough), each class with an ordered list of <=3 distinct "
         "bases among earlier classes, enumerated exhaustively in one module; plus seeded samples of the same "
         "hierarchies spread over 2-3 modules (from-import / aliased import / mod.Class bases) and textual "
-        "inheritance cycles; members f,g,h,x placed at random with overrides. distinct = digest of the rendered "
-        "sources; non-trivial = some class has >= 2 bases")
+        "inheritance cycles; plus seeded loading sessions: the hierarchy spread over 2-3 top-level packages/modules "
+        "(bases through from/aliased/module-attribute/relative imports and re-exports by a third unit), loaded or "
+        "visited into one shared collection in a random order (all orders occur) by 1-3 loaders with default or no "
+        "extensions, accessors read and resolve_aliases() called at random places between the loads, every class "
+        "judged as soon as everything it depends on is loaded and again at the end; members f,g,h,x placed at "
+        "random with overrides. distinct = digest of the rendered sources (+ operations); non-trivial = some class "
+        "has >= 2 bases")
 LEVEL_TEXT = ("Every hierarchy of the stated bounded space is built by CPython's type() and by Griffe from the same text and "
               "compared class by class (MRO, rejected/cyclic hierarchies, definer of every inherited name, alias "
               "presentation); a post-condition on c3linear_merge is evaluated on every merge. Exhaustive for <=5 (quick) / "
-              "<=6 (thorough) classes with <=3 bases in one module; sampled across modules.")
+              "<=6 (thorough) classes with <=3 bases in one module; sampled across modules and across multi-step loading "
+              "sessions (the answer of an accessor must not depend on what was loaded or asked before).")
 LEVEL_NOTE = "trusted: CPython 3.12 type()/__mro__ as reference; the renderer of class statements; bounds N<=6, <=3 bases"
 TECHNIQUE = "runtime monitoring: differential oracle against CPython type()/__mro__ + contract on c3linear_merge + step budget"
 REQUIRED_COUNTERS = ["mro_compared", "c3_contract_evals", "inherited_lookups_compared", "rejected_by_both",
-                     "cycles_reported"]
+                     "cycles_reported", "session_final_classes_judged", "session_classes_judged_mid_session",
+                     "session_final_classes_asked_before_bases_loaded", "session_reads_between_loads",
+                     "session_cpython_import_agrees"]
 EXHAUSTIVE = {"quick": True, "thorough": True}  # quick: exhaustive for N<=5 (+ a sample of N=6); thorough: N<=6
 ASSUMPTIONS = ["CPython 3.12 type() is the reference semantics for C3 linearisation and attribute lookup",
-               "exhaustive over the stated bounded space only (N classes, <=3 bases); cross-module and cycle "
-               "workloads are sampled"]
+               "exhaustive over the stated bounded space only (N classes, <=3 bases); cross-module, cycle and "
+               "loading-session workloads are sampled",
+               "in the middle of a loading session a class is compared with CPython only once every package its "
+               "ancestors (and the re-exporting modules on the way) live in is loaded; before that only "
+               "state-independent invariants are judged (what an unloadable base should mean is not part of the "
+               "statement)"]
 NAMES = ["f", "g", "h", "x"]
 
 
@@ -61,6 +78,8 @@ def shards(tier: str, seed: int) -> list[dict]:
     for p in range(8 if tier == "quick" else 16):
         out.append({"kind": "multi", "count": nmulti, "maxn": 6})
     out.append({"kind": "cycles"})
+    for p in range(8 if tier == "quick" else 16):
+        out.append({"kind": "sessions", "count": 160 if tier == "quick" else 2500, "maxn": 6})
     if tier == "quick":
         out += [{"kind": "sampled6", "count": 2500} for _ in range(8)]   # N=6 is exhaustive only in the thorough tier
     return out
@@ -145,67 +164,74 @@ def cpython_reference(hier, members):  # noqa: ANN001
     return mros, definers
 
 
-def judge(rec, case, hier, members, get_class, path_of, steps):  # noqa: ANN001, C901, PLR0912
+def judge_one(rec, i, cls, mros, definers, members, path_of, steps):  # noqa: ANN001, C901, PLR0911, PLR0912
+    """Compare griffe's view of class number ``i`` with CPython's. Returns a failure tuple or None."""
+    steps.begin(200_000)
+    try:
+        try:
+            got = cls.mro()
+            err = None
+        except ValueError as exc:
+            got, err = None, exc
+        inherited = cls.inherited_members
+        allm = cls.all_members
+    finally:
+        n, depth = steps.end()
+        rec.maximum("max_steps_per_class", n)
+        rec.maximum("max_stack_depth", depth)
+    exp = mros[i]
+    rec.count("mro_compared")
+    if exp is None:
+        rec.count("rejected_by_both" if got is None else "rejected_by_cpython_only")
+        if got is not None:
+            return (f"C{i}: CPython rejects the hierarchy, griffe returned an MRO", [c.path for c in got], "ValueError")
+        if inherited:
+            return (f"C{i}: uncomputable MRO but inherited_members non-empty", sorted(inherited), {})
+        return None
+    if got is None:
+        return (f"C{i}: griffe raised {err!r} but CPython accepts", None, [path_of(j) for j in exp])
+    gotp = [c.path for c in got]
+    expp = [path_of(j) for j in exp]
+    if gotp != expp:
+        return (f"C{i}: MRO differs", gotp, expp)
+    own = set(members[i])
+    exp_inh = {name: d for name, d in definers[i].items() if name not in own}
+    if set(inherited) != set(exp_inh):
+        return (f"C{i}: inherited member names differ", sorted(inherited), sorted(exp_inh))
+    if set(inherited) & set(cls.members):
+        return (f"C{i}: inherited member shadows a declared one", sorted(set(inherited) & set(cls.members)), [])
+    for name, d in exp_inh.items():
+        rec.count("inherited_lookups_compared")
+        al = inherited[name]
+        want = path_of(d) + "." + name
+        if al.final_target.path != want:
+            return (f"C{i}.{name}: inherited from wrong definer", al.final_target.path, want)
+        if not al.is_alias or not al.inherited:
+            return (f"C{i}.{name}: inherited member is not an inherited alias", repr(al), "Alias(inherited=True)")
+        if al.path != cls.path + "." + name:
+            return (f"C{i}.{name}: inherited alias path not rebased", al.path, cls.path + "." + name)
+        viaitem = cls[name]
+        if viaitem.final_target.path != want:
+            return (f"C{i}[{name!r}] resolves to wrong definer", viaitem.final_target.path, want)
+        if allm[name].final_target.path != want:
+            return (f"C{i}.all_members[{name!r}] wrong definer", allm[name].final_target.path, want)
+    for name in own:
+        if allm[name] is not cls.members[name]:
+            return (f"C{i}.all_members[{name!r}] is not the declared member", repr(allm[name]), repr(cls.members[name]))
+        if cls[name] is not cls.members[name]:
+            return (f"C{i}[{name!r}] is not the declared member", repr(cls[name]), repr(cls.members[name]))
+    if set(allm) != own | set(exp_inh):
+        return (f"C{i}: all_members names differ", sorted(allm), sorted(own | set(exp_inh)))
+    return None
+
+
+def judge(rec, case, hier, members, get_class, path_of, steps):  # noqa: ANN001
     """Compare griffe's view of every class with CPython's. Returns a failure tuple or None."""
     mros, definers = cpython_reference(hier, members)
     for i in range(len(hier)):
-        cls = get_class(i)
-        steps.begin(200_000)
-        try:
-            try:
-                got = cls.mro()
-                err = None
-            except ValueError as exc:
-                got, err = None, exc
-            inherited = cls.inherited_members
-            allm = cls.all_members
-        finally:
-            n, depth = steps.end()
-            rec.maximum("max_steps_per_class", n)
-            rec.maximum("max_stack_depth", depth)
-        exp = mros[i]
-        rec.count("mro_compared")
-        if exp is None:
-            rec.count("rejected_by_both" if got is None else "rejected_by_cpython_only")
-            if got is not None:
-                return (f"C{i}: CPython rejects the hierarchy, griffe returned an MRO", [c.path for c in got], "ValueError")
-            if inherited:
-                return (f"C{i}: uncomputable MRO but inherited_members non-empty", sorted(inherited), {})
-            continue
-        if got is None:
-            return (f"C{i}: griffe raised {err!r} but CPython accepts", None, [path_of(j) for j in exp])
-        gotp = [c.path for c in got]
-        expp = [path_of(j) for j in exp]
-        if gotp != expp:
-            return (f"C{i}: MRO differs", gotp, expp)
-        own = set(members[i])
-        exp_inh = {name: d for name, d in definers[i].items() if name not in own}
-        if set(inherited) != set(exp_inh):
-            return (f"C{i}: inherited member names differ", sorted(inherited), sorted(exp_inh))
-        if set(inherited) & set(cls.members):
-            return (f"C{i}: inherited member shadows a declared one", sorted(set(inherited) & set(cls.members)), [])
-        for name, d in exp_inh.items():
-            rec.count("inherited_lookups_compared")
-            al = inherited[name]
-            want = path_of(d) + "." + name
-            if al.final_target.path != want:
-                return (f"C{i}.{name}: inherited from wrong definer", al.final_target.path, want)
-            if not al.is_alias or not al.inherited:
-                return (f"C{i}.{name}: inherited member is not an inherited alias", repr(al), "Alias(inherited=True)")
-            if al.path != cls.path + "." + name:
-                return (f"C{i}.{name}: inherited alias path not rebased", al.path, cls.path + "." + name)
-            viaitem = cls[name]
-            if viaitem.final_target.path != want:
-                return (f"C{i}[{name!r}] resolves to wrong definer", viaitem.final_target.path, want)
-            if allm[name].final_target.path != want:
-                return (f"C{i}.all_members[{name!r}] wrong definer", allm[name].final_target.path, want)
-        for name in own:
-            if allm[name] is not cls.members[name]:
-                return (f"C{i}.all_members[{name!r}] is not the declared member", repr(allm[name]), repr(cls.members[name]))
-            if cls[name] is not cls.members[name]:
-                return (f"C{i}[{name!r}] is not the declared member", repr(cls[name]), repr(cls.members[name]))
-        if set(allm) != own | set(exp_inh):
-            return (f"C{i}: all_members names differ", sorted(allm), sorted(own | set(exp_inh)))
+        res = judge_one(rec, i, get_class(i), mros, definers, members, path_of, steps)
+        if res:
+            return res
     return None
 
 
@@ -282,6 +308,380 @@ def run_multi(rec, rng, steps, maxn):  # noqa: ANN001
         rec.fail(case, res[0], observed=res[1], expected=res[2], nontrivial=nontrivial)
     else:
         rec.ok(case, nontrivial=nontrivial)
+
+
+# ------------------------------------------------------------------------------------------
+# Loading sessions: the hierarchy is spread over 2-3 *top-level* packages / modules that are brought into one
+# modules collection step by step, in any order, with the accessors read at random places between the steps.
+TOPS = ["pka", "pkb", "pkc"]
+READS = ["mro", "inherited_members", "all_members", "resolved_bases", "getitem"]
+
+
+def _top(unit: str) -> str:
+    return unit.split(".", 1)[0]
+
+
+def gen_session(rng: random.Random, maxn: int) -> dict:  # noqa: C901, PLR0912, PLR0915
+    """One literal session case: files, the classes' homes, and the list of operations."""
+    while True:
+        n = rng.randint(3, maxn)
+        hier = [rng.choice(base_choices(i)) for i in range(n)]
+        members = members_for(rng, n)
+        if None in cpython_reference(hier, members)[0] and rng.random() < 0.75:
+            continue                              # mostly hierarchies CPython accepts; rejected ones stay in the mix
+        mode = rng.choice(["load", "load", "load", "visit"])
+        tops = TOPS[:rng.randint(2, 3)]
+        shape, units = {}, []
+        for t in tops:
+            units.append(t)                       # a single-file module, or the package's __init__
+            if mode == "visit" or rng.random() < 0.3:
+                shape[t] = "file"
+            else:
+                shape[t] = "pkg"
+                units += [f"{t}.m{k}" for k in range(rng.randint(1, 2))]
+        rng.shuffle(units)                        # an order in which CPython can import the units (deps point backwards)
+        pos = sorted(rng.randrange(len(units)) for _ in range(n))
+        home = [units[p] for p in pos]
+        if any(_top(home[b]) != _top(home[i]) for i, bases in enumerate(hier) for b in bases):
+            break
+    imports: dict[str, list[str]] = {u: [] for u in units}
+    bodies: dict[str, list[str]] = {u: [] for u in units}
+    bound: dict[str, dict[str, str]] = {u: {} for u in units}   # unit -> name -> where the name is imported from
+    chosen: dict[tuple[str, int], tuple[str, set[str]]] = {}    # (unit, base) -> (expression, tops it goes through)
+    needs: list[list[str]] = []
+    aliases: list[dict] = []                      # {"cls": b, "path": dotted path of an alias of C<b>, "needs": tops}
+
+    def bind(unit: str, name: str, source: str, stmt: str, b: int, through: set[str]) -> bool:
+        if bound[unit].setdefault(name, source) != source:
+            return False
+        if stmt not in imports[unit]:
+            imports[unit].append(stmt)
+            aliases.append({"cls": b, "path": f"{unit}.{name}", "needs": sorted({_top(unit)} | through | set(needs[b]))})
+        return True
+
+    for i, bases in enumerate(hier):
+        hi = home[i]
+        need = {_top(hi)}
+        exprs = []
+        for b in bases:
+            hb = home[b]
+            need |= set(needs[b])
+            if hb == hi:
+                exprs.append(f"C{b}")
+                continue
+            if (hi, b) in chosen:
+                exprs.append(chosen[hi, b][0])
+                need |= chosen[hi, b][1]
+                continue
+            forms = ["from", "from_as", "import_as"]
+            if _top(hb) != _top(hi):
+                forms.append("import")
+            if "." in hb:
+                forms.append("from_parent")
+            if _top(hb) == _top(hi) and shape[_top(hi)] == "pkg":
+                forms.append("rel")
+            between = [u for u in units[pos[b] + 1:pos[i]] if u not in (hb, hi)]
+            if between:
+                forms += ["via", "via"]
+            form = rng.choice(forms)
+            tag = hb.replace(".", "_")
+            through: set[str] = set()
+            expr = None
+            if form == "from" and bind(hi, f"C{b}", hb, f"from {hb} import C{b}", b, set()):
+                expr = f"C{b}"
+            elif form == "import":
+                imports[hi].append(f"import {hb}")
+                expr = f"{hb}.C{b}"
+            elif form == "import_as":
+                imports[hi].append(f"import {hb} as mod_{tag}")
+                expr = f"mod_{tag}.C{b}"
+            elif form == "from_parent":
+                parent, leaf = hb.rsplit(".", 1)
+                imports[hi].append(f"from {parent} import {leaf} as sub_{tag}")
+                expr = f"sub_{tag}.C{b}"
+            elif form == "rel":
+                # hi and hb are units of the same package: "from . import C" (hb is the __init__) or "from .m import C"
+                src = "." if "." not in hb else "." + hb.rsplit(".", 1)[1]
+                bind(hi, f"R{b}", "rel:" + hb, f"from {src} import C{b} as R{b}", b, set())
+                expr = f"R{b}"
+            elif form == "via":
+                # re-exported by a unit in between: the package's own __init__, a sibling module, another package
+                via = rng.choice(between)
+                vtag = via.replace(".", "_")
+                through = {_top(via)}
+                if rng.random() < 0.5 and bound[hi].get(f"C{b}", via) == via \
+                        and bind(via, f"C{b}", hb, f"from {hb} import C{b}", b, set()):
+                    bind(hi, f"C{b}", via, f"from {via} import C{b}", b, through)
+                    expr = f"C{b}"
+                else:
+                    bind(via, f"X{b}", hb, f"from {hb} import C{b} as X{b}", b, set())
+                    bind(hi, f"Y{b}_{vtag}", via, f"from {via} import X{b} as Y{b}_{vtag}", b, through)
+                    expr = f"Y{b}_{vtag}"
+            if expr is None:                      # "from_as", or the plain name is taken by another route
+                bind(hi, f"K{b}", hb, f"from {hb} import C{b} as K{b}", b, set())
+                expr = f"K{b}"
+            chosen[hi, b] = (expr, through)
+            need |= through
+            exprs.append(expr)
+        needs.append(sorted(need))
+        bodies[hi].append(render_class(i, exprs, members[i]))
+    split_roots = mode == "load" and rng.random() < 0.4
+    roots = [f"s{k}" for k in range(len(tops))] if split_roots else ["."]
+    files = {}
+    for u in units:
+        t = _top(u)
+        root = "" if not split_roots else f"s{tops.index(t)}/"
+        rel = f"{t}.py" if shape[t] == "file" else (f"{t}/__init__.py" if u == t else f"{t}/{u.split('.')[1]}.py")
+        files[root + rel] = "\n".join(dict.fromkeys(imports[u])) + ("\n" if imports[u] else "") + "".join(bodies[u])
+    # the operations
+    nloaders = rng.choice([1, 1, 2, 3])
+    order = list(tops)
+    rng.shuffle(order)
+    ops: list[dict] = []
+    loaded: set[str] = set()
+    for t in order:
+        ops.append({"op": "load", "top": t, "loader": rng.randrange(nloaders)})
+        loaded.add(t)
+        present = [i for i in range(n) if _top(home[i]) in loaded]
+        for _ in range(rng.choice([0, 0, 1, 2, 3])):
+            if rng.random() < 0.15:
+                ops.append({"op": "resolve_aliases", "loader": rng.randrange(nloaders), "implicit": rng.random() < 0.5})
+                continue
+            if not present:
+                break
+            i = rng.choice(present)
+            usable = [a["path"] for a in aliases if a["cls"] == i and set(a["needs"]) <= loaded]
+            ops.append({"op": "read", "cls": i, "what": rng.choice(READS),
+                        "alias": rng.choice(usable) if usable and rng.random() < 0.35 else None})
+    final_order = list(range(n))
+    rng.shuffle(final_order)
+    return {"kind": "session", "mode": mode, "files": files, "roots": roots, "units": units, "home": home,
+            "hier": [list(b) for b in hier], "members": members, "needs": needs, "nloaders": nloaders,
+            "extensions": rng.choice(["default", "default", "none"]) if mode == "load" else "none",
+            "ops": ops, "final_order": final_order}
+
+
+def import_reference(case: dict):  # noqa: ANN201
+    """CPython itself imports the files (every top-level importable). -> ((mros, definers), None) or (None, reason)."""
+    import importlib
+    import sys
+
+    from vf.core.util import tmp_tree
+
+    home = case["home"]
+    with tmp_tree(case["files"]) as root:
+        roots = [str(root) if r == "." else str(root / r) for r in case["roots"]]
+        saved_path, saved_flag = list(sys.path), sys.dont_write_bytecode
+        sys.dont_write_bytecode = True
+        sys.path[:0] = roots
+        importlib.invalidate_caches()
+        try:
+            for u in case["units"]:
+                importlib.import_module(u)
+            classes = [getattr(sys.modules[h], f"C{i}") for i, h in enumerate(home)]
+            if any(c.__module__ != home[i] or c.__qualname__ != f"C{i}" for i, c in enumerate(classes)):
+                return None, "class not defined where the generator says"
+            index = {c: i for i, c in enumerate(classes)}
+            mros = [[index[c] for c in cls.__mro__[1:-1]] for cls in classes]
+            definers = []
+            for cls in classes:
+                d = {}
+                for name in NAMES:
+                    for c in cls.__mro__[:-1]:
+                        if name in vars(c):
+                            d[name] = index[c]
+                            break
+                definers.append(d)
+            return (mros, definers), None
+        except (ImportError, TypeError, AttributeError) as exc:
+            return None, type(exc).__name__
+        finally:
+            sys.path[:] = saved_path
+            sys.dont_write_bytecode = saved_flag
+            for name in list(sys.modules):
+                if _top(name) in TOPS:
+                    del sys.modules[name]
+            for r in roots:
+                sys.path_importer_cache.pop(r, None)
+            importlib.invalidate_caches()
+
+
+def _walk_to(collection, path: str):  # noqa: ANN001, ANN202
+    parts = path.split(".")
+    obj = collection.members[parts[0]]
+    for part in parts[1:]:
+        obj = obj.members[part]
+    return obj
+
+
+def touch(cls, what: str, alias, steps):  # noqa: ANN001, ANN201, C901, PLR0911, PLR0912
+    """One accessor read in the middle of a session (possibly through an alias of the class).
+
+    Only what holds in *any* loading state is judged here: no exception other than mro()'s ValueError,
+    well-formedness, own members never shadowed, and alias == target.
+    """
+    subject = alias if alias is not None else cls
+    steps.begin(200_000)
+    try:
+        if what == "mro":
+            try:
+                order = [c.path for c in subject.mro()]
+            except ValueError:
+                order = None
+            if order is not None and (len(set(order)) != len(order) or cls.path in order):
+                return (f"{cls.path}: mro() is not a duplicate-free list of other classes", order, None)
+            if alias is not None:
+                try:
+                    direct = [c.path for c in cls.mro()]
+                except ValueError:
+                    direct = None
+                if direct != order:
+                    return (f"{alias.path}: mro() through the alias differs from the class's", order, direct)
+        elif what == "inherited_members":
+            inh = subject.inherited_members
+            if set(inh) & set(cls.members):
+                return (f"{cls.path}: inherited member shadows a declared one", sorted(set(inh) & set(cls.members)), [])
+            for name, al in inh.items():
+                if not al.is_alias or not al.inherited or al.path != f"{subject.path}.{name}":
+                    return (f"{subject.path}.{name}: not an inherited alias under the subclass's path", repr(al), None)
+            if alias is not None and set(inh) != set(cls.inherited_members):
+                return (f"{alias.path}: inherited_members through the alias differ", sorted(inh),
+                        sorted(cls.inherited_members))
+        elif what == "all_members":
+            allm = subject.all_members
+            if alias is None:
+                for name, m in cls.members.items():
+                    if allm.get(name) is not m:
+                        return (f"{cls.path}.all_members[{name!r}] is not the declared member", repr(allm.get(name)), repr(m))
+            elif set(allm) != set(cls.all_members):
+                return (f"{alias.path}: all_members through the alias differ", sorted(allm), sorted(cls.all_members))
+        elif what == "resolved_bases":
+            rb = subject.resolved_bases
+            if any(b.is_alias for b in rb) or len(rb) > len(cls.bases):
+                return (f"{cls.path}: resolved_bases malformed", [b.path for b in rb], [str(b) for b in cls.bases])
+            if alias is not None and [b.path for b in rb] != [b.path for b in cls.resolved_bases]:
+                return (f"{alias.path}: resolved_bases through the alias differ", [b.path for b in rb],
+                        [b.path for b in cls.resolved_bases])
+        else:
+            for name in NAMES:
+                try:
+                    got = subject[name]
+                except KeyError:
+                    got = None
+                target = got.final_target if got is not None and got.is_alias else got
+                if name in cls.members and (target is not cls.members[name]
+                                            or (alias is None and got is not cls.members[name])):
+                    return (f"{subject.path}[{name!r}] is not the declared member", repr(got), repr(cls.members[name]))
+    finally:
+        steps.end()
+    return None
+
+
+def exec_session(rec, case: dict, steps):  # noqa: ANN001, ANN201, C901, PLR0912, PLR0915
+    """Run the literal session; returns a failure tuple or None."""
+    import griffe
+
+    from vf.core.util import tmp_tree
+
+    hier = tuple(tuple(b) for b in case["hier"])
+    members, home, needs = case["members"], case["home"], [set(x) for x in case["needs"]]
+    n = len(hier)
+    mros, definers = cpython_reference(hier, members)
+    imported, why = import_reference(case)
+    if imported is None:
+        # importing a submodule runs the parent __init__ first, which can close an import cycle at run time
+        # (ImportError / AttributeError on a partially initialised module): then type() alone is the reference
+        circular = why in ("ImportError", "AttributeError")
+        acceptable = all(m is not None for m in mros)
+        rec.count("session_cpython_import_circular" if circular else "session_cpython_import_rejected")
+        if acceptable and not circular:
+            return (f"harness: CPython cannot import a hierarchy that type() accepts ({why})", why, None)
+    else:
+        rec.count("session_cpython_import_agrees")
+        if imported != (mros, definers):
+            return ("harness: importing the files in CPython and type() disagree", imported, (mros, definers))
+
+    def path_of(j: int) -> str:
+        return f"{home[j]}.C{j}"
+
+    mc, lc = griffe.ModulesCollection(), griffe.LinesCollection()
+    loaded: set[str] = set()
+    asked_early: set[int] = set()       # classes some accessor was evaluated on before everything they need was there
+    order = [op["top"] for op in case["ops"] if op["op"] == "load"]
+    rec.add_to_set("session_load_orders", f"{case['mode']}:" + ">".join(order))
+    with tmp_tree(case["files"] if case["mode"] == "load" else {}) as root:
+        loaders = []
+        for _ in range(case["nloaders"]):
+            loaders.append(griffe.GriffeLoader(
+                search_paths=[root if r == "." else root / r for r in case["roots"]], allow_inspection=False,
+                extensions=None if case["extensions"] == "default" else griffe.Extensions(),
+                modules_collection=mc, lines_collection=lc))
+        nload = 0
+        for op in case["ops"]:
+            if op["op"] == "load":
+                t = op["top"]
+                if case["mode"] == "load":
+                    loaders[op["loader"]].load(t)
+                else:
+                    visit_source(case["files"][f"{t}.py"], t, collection=mc, lines=lc)
+                loaded.add(t)
+                nload += 1
+                early = [i for i in range(n) if _top(home[i]) == t and not needs[i] <= loaded]
+                if early:
+                    rec.count("session_dependent_loaded_before_bases")
+                    if case["extensions"] == "default":
+                        asked_early.update(early)
+                if nload > 1 and len(loaders) > 1:
+                    rec.count("session_loads_by_several_loaders")
+            elif op["op"] == "resolve_aliases":
+                loaders[op["loader"]].resolve_aliases(implicit=op["implicit"], external=False)
+                rec.count("session_resolve_aliases_between_loads" if len(loaded) < len(set(order))
+                          else "session_resolve_aliases_at_end")
+            else:
+                i = op["cls"]
+                cls = _walk_to(mc, path_of(i))
+                alias = _walk_to(mc, op["alias"]) if op["alias"] else None
+                res = touch(cls, op["what"], alias, steps)
+                if res:
+                    return res
+                complete = needs[i] <= loaded
+                if len(loaded) < len(set(order)):
+                    rec.count("session_reads_between_loads")
+                if alias is not None:
+                    rec.count("session_reads_through_alias")
+                if complete:
+                    # everything this class depends on is there: the answer must already be CPython's
+                    res = judge_one(rec, i, cls, mros, definers, members, path_of, steps)
+                    if res:
+                        return (res[0] + f" (asked after loading {sorted(loaded)})", res[1], res[2])
+                    rec.count("session_classes_judged_mid_session")
+                else:
+                    asked_early.add(i)
+                    rec.count("session_reads_before_bases_loaded")
+        for i in case["final_order"]:
+            res = judge_one(rec, i, _walk_to(mc, path_of(i)), mros, definers, members, path_of, steps)
+            if res:
+                early = " (accessors had been evaluated on it before its bases were loaded)" if i in asked_early else ""
+                return (res[0] + f" after the whole session{early}", res[1], res[2])
+            rec.count("session_final_classes_judged")
+            if i in asked_early:
+                rec.count("session_final_classes_asked_before_bases_loaded")
+    return None
+
+
+def run_session(rec, case: dict, steps) -> None:  # noqa: ANN001
+    nontrivial = any(len(b) >= 2 for b in case["hier"])
+    try:
+        with case_watchdog(60):
+            res = exec_session(rec, case, steps)
+    except (Exception, mon.StepBudgetExceeded) as exc:  # noqa: BLE001
+        rec.fail_exc(case, "exception during a loading session (loads / reads / final MRO)", exc, nontrivial=nontrivial)
+        return
+    rec.count("session_cases")
+    if res:
+        rec.fail(case, res[0], observed=res[1], expected=res[2], nontrivial=nontrivial)
+    else:
+        rec.ok(case, nontrivial=nontrivial, tags=("session",))
 
 
 CYCLES = [
@@ -382,6 +782,9 @@ def run_shard(spec: dict, rec) -> None:  # noqa: ANN001
             run_multi(rec, rng, steps, spec["maxn"])
     elif spec["kind"] == "cycles":
         run_cycles(rec, steps)
+    elif spec["kind"] == "sessions":
+        for _ in range(spec["count"]):
+            run_session(rec, gen_session(rng, spec["maxn"]), steps)
     elif spec["kind"] == "sampled6":
         for _ in range(spec["count"]):
             hier = tuple(rng.choice(base_choices(i)) for i in range(6))
@@ -396,6 +799,9 @@ def run_replay(inp: dict, rec) -> None:  # noqa: ANN001
     if inp.get("kind") == "textual-cycle":
         CYCLES[:] = [inp["files"]]
         run_cycles(rec, steps)
+        return
+    if inp.get("kind") == "session":
+        run_session(rec, inp, steps)
         return
     files = inp.get("files") or {"m.py": inp["source"]}
     # generic oracle from text: parse class statements, rebuild with type()
